@@ -63,6 +63,14 @@ def oracle(rep, impl, args, old, pat, code, out, exc):
         return
     if not (version.parse_version(new) > version.parse_version(old)):
         rep.violation("announced version is not strictly greater than the old one", input=inp, **{"class": "not-greater"})
+        return
+    # independent reference for the order (packaging.version), for strings it accepts
+    try:
+        from packaging import version as pk
+        if not (pk.Version(new) > pk.Version(old)):
+            rep.violation("announced version is not strictly greater than the old one under PEP 440 (packaging.version)", input=inp, **{"class": "not-greater"})
+    except Exception:
+        pass
 
 
 def run(rep, tier, seed, model_ok=True, effort=1):
@@ -74,6 +82,23 @@ def run(rep, tier, seed, model_ok=True, effort=1):
                 "plus `bumpver update [--dry]` in temporary projects; oracle: full match + strictly greater on exit 0; non-trivial = distinct accepted case")
     today = v2gen.ordinal(impl.PINNED_TODAY)
     items, meta = [], []
+    # corpus: tag changes without a numeric bump (the order of dev / pre / final / post decides)
+    F0 = dict(major=False, minor=False, patch=False, tag=None, tag_num=False, pin_increments=False, pin_date=True)
+    for old_c, pat_c, tag_c in [("1.0.0b0", "MAJOR.MINOR.PATCH[PYTAGNUM]", "dev"), ("1.0.0a1", "MAJOR.MINOR.PATCH[PYTAGNUM]", "dev"),
+                                ("1.0.0rc2", "MAJOR.MINOR.PATCH[PYTAGNUM]", "beta"), ("1.0.0rc2", "MAJOR.MINOR.PATCH[PYTAGNUM]", "final"),
+                                ("1.0.0", "MAJOR.MINOR.PATCH[PYTAGNUM]", "post"), ("1.0.0post0", "MAJOR.MINOR.PATCH[PYTAGNUM]", "dev"),
+                                ("1.0.0dev0", "MAJOR.MINOR.PATCH[PYTAGNUM]", "alpha"), ("1.0.0-beta", "MAJOR.MINOR.PATCH[-TAG]", "alpha"),
+                                ("1.0.0-rc", "MAJOR.MINOR.PATCH[-TAG]", "dev"), ("1.0.0", "MAJOR.MINOR.PATCH[-TAG]", "rc")]:
+        fl_c = dict(F0, tag=tag_c)
+        args = ["test", old_c, pat_c] + c05.flag_args(fl_c, None)
+        code, out, exc = impl.run_cli(args)
+        rep.case(("corpus", old_c, pat_c, tag_c), nontrivial=code == 0)
+        oracle(rep, impl, args, old_c, pat_c, code, out, exc)
+        new = impl.parse_new_version(out) if code == 0 else None
+        pep = impl.parse_pep440_line(out) if code == 0 else None
+        exp = "(Exit0 %s %s)" % (cs(new), cs(pep if pep is not None else new)) if code == 0 and new is not None else "ExitErr"
+        items.append("(%s,%s,%s,None,None,%s)" % (cs(old_c), cs(pat_c), v2gen.cflags(fl_c), exp))
+        meta.append(dict(args=args, exit=code, new=new, exc=repr(exc) if exc else None))
     for i in range(n):
         pat, info, v, d, old, fl, nd = c05.gen_case(r, impl)
         if not old:
